@@ -533,6 +533,94 @@ def tag(case, f):
     return None
 
 
+# ---------------------------------------------------------------------------------------------
+# scalars and unlabelled sequences on either side of the operator (forward and reflected forms)
+
+SCALAR_OPS = ('add', 'sub', 'mul', 'truediv', 'floordiv', 'mod', 'pow', 'eq', 'lt', 'ge')
+
+
+@st.composite
+def scalar_cases(draw):
+    kind = draw(st.sampled_from(['series', 'frame', 'frame_go', 'index', 'series_he']))
+    op = draw(st.sampled_from(SCALAR_OPS))
+    side = draw(st.sampled_from(['reflected', 'forward']))
+    operand = draw(st.sampled_from(['int', 'float', 'list', 'int']))
+    scalar = draw(st.sampled_from([2, 3, 7, -2, 20])) if operand != 'float' else draw(st.sampled_from([2.5, 0.5, -1.5, 20.0]))
+    n = draw(st.integers(1, 5))
+    dts = [draw(st.sampled_from(['int64', 'float64', 'int64'])) for _ in range(3)]
+    cols = []
+    for dt in dts:
+        vals = draw(st.lists(st.integers(1, 9) if dt == 'int64' else st.sampled_from([0.5, 1.5, 3.0, 7.0, 2.25, 6.5]), min_size=n, max_size=n))
+        cols.append(np.array(vals, dtype=dt))
+    lvals = draw(st.lists(st.integers(1, 6), min_size=n, max_size=n))
+    return {'kind': kind, 'op': op, 'side': side, 'operand': operand, 'scalar': scalar, 'n': n, 'cols': cols, 'list': lvals, 'wide': draw(st.booleans())}
+
+
+def check_scalar(case):
+    kind, op, n = case['kind'], case['op'], case['n']
+    fn = OPS[op]
+    cols = [gen.freeze(c.copy()) for c in case['cols']]
+    if kind in ('frame', 'frame_go') and case['operand'] == 'list':
+        raise Discard('a list against a Frame is matched against rows or columns: outside this clause')
+    if case['side'] == 'reflected' and op in ('mod', 'pow'):
+        raise Discard('the containers define no reflected % and ** (a loud TypeError, not a wrong answer)')
+    if kind == 'series_he' and op == 'eq':
+        raise Discard('== on the hashable classes is equals(), not an element-wise operator')
+    other = case['list'] if case['operand'] == 'list' else case['scalar']
+    if kind in ('series', 'series_he'):
+        c = getattr(sf, 'Series' if kind == 'series' else 'SeriesHE')(cols[0], index=['r%d' % q for q in range(n)], name='s')
+        srcs = [cols[0]]
+    elif kind == 'index':
+        lab = np.array(sorted(set(arr_list(cols[0]))), dtype=cols[0].dtype)   # labels are distinct
+        if case['operand'] == 'list':
+            other = case['list'][:len(lab)] + [1] * max(0, len(lab) - len(case['list']))
+        c = sf.Index(lab)
+        srcs = [lab]
+    else:
+        # neighbouring columns of one dtype share a 2-D block when `wide` is set
+        if case['wide'] and cols[0].dtype == cols[1].dtype:
+            blocks = [np.column_stack([cols[0], cols[1]]), cols[2]]
+        elif case['wide'] and cols[1].dtype == cols[2].dtype:
+            blocks = [cols[0], np.column_stack([cols[1], cols[2]])]
+        else:
+            blocks = list(cols)
+        c = (sf.FrameGO if kind == 'frame_go' else sf.Frame)(sf.TypeBlocks.from_blocks([gen.freeze(b) for b in blocks]), index=['r%d' % q for q in range(n)], columns=('a', 'b', 'c'), name='f')
+        srcs = cols
+    oarr = np.array(other) if isinstance(other, list) else other
+    what = '%s %s %s' % ((repr(other), op, kind) if case['side'] == 'reflected' else (kind, op, repr(other)))
+    with np.errstate(all='ignore'):
+        try:
+            want = [fn(oarr, a) if case['side'] == 'reflected' else fn(a, oarr) for a in srcs]
+        except Exception as e:  # noqa: BLE001
+            raise Discard('NumPy does not evaluate this pairing: %s' % type(e).__name__)
+        r = lib(lambda: fn(other, c) if case['side'] == 'reflected' else fn(c, other))
+    if isinstance(r, Raised):
+        raise Failure('raised:%s' % r.cls, '%s raised %r (NumPy evaluates it)' % (what, r.exc), r.where)
+    if kind == 'index':
+        if not isinstance(r, np.ndarray):
+            raise Failure('class', '%s returned %s' % (what, type(r).__name__))
+        got = [r]
+    elif kind in ('series', 'series_he'):
+        if not isinstance(r, sf.Series):
+            raise Failure('class', '%s returned %s' % (what, type(r).__name__))
+        if obs.labels_of(r.index) != ['r%d' % q for q in range(n)]:
+            raise Failure('labels', '%s: labels %s' % (what, short(obs.labels_of(r.index))))
+        got = [r.values]
+    else:
+        if not isinstance(r, sf.Frame):
+            raise Failure('class', '%s returned %s' % (what, type(r).__name__))
+        if obs.labels_of(r.index) != ['r%d' % q for q in range(n)] or obs.labels_of(r.columns) != ['a', 'b', 'c']:
+            raise Failure('labels', '%s: labels %s x %s' % (what, short(obs.labels_of(r.index)), short(obs.labels_of(r.columns))))
+        got = obs.frame_cols(r)
+    for j, (g, w) in enumerate(zip(got, want)):
+        gl, wl = arr_list(g), arr_list(w)
+        if len(gl) != len(wl) or any(not (eq(x, y) or (is_missing(x) and is_missing(y))) for x, y in zip(gl, wl)):
+            raise Failure('value', '%s: column %d holds %s, %s applied to the values gives %s' % (what, j, short(gl), op, short(wl)))
+        if np.asarray(g).dtype.kind != np.asarray(w).dtype.kind:
+            raise Failure('dtype', '%s: column %d has dtype %s, NumPy gives %s' % (what, j, np.asarray(g).dtype, np.asarray(w).dtype))
+    return {'nt': True, 'cls': ['scalar:' + kind, 'scalar-op:' + op, 'scalar-side:' + case['side'], 'scalar-operand:' + case['operand']]}
+
+
 SUBS = [
     Sub('setops', setop_cases(), check_setop, quick=8000, thorough=48000, tag=tag,
         rule='set algebra of indices'),
@@ -542,4 +630,6 @@ SUBS = [
         rule='Frame op Frame / Series vs cell-wise model'),
     Sub('product_trees', product_cases(), check_product, quick=1600, thorough=8000, tag=tag,
         rule='hierarchies built by from_product vs a same-shaped hierarchy differing in one inner label: set algebra, equals, Series / Frame operators pair by label'),
+    Sub('scalar_forms', scalar_cases(), check_scalar, quick=2400, thorough=16000, tag=tag,
+        rule='a scalar or unlabelled list on either side (forward and reflected + - * / // % ** == < >=) of a Series / SeriesHE / Frame / FrameGO / Index: labels kept, every cell is the operator applied to the value in that order'),
 ]
